@@ -197,6 +197,10 @@ def hashable_rows(
     # if it is flat integers already return
     if len(as_int.shape) == 1:
         return as_int
+    if len(as_int.shape) == 2 and as_int.shape[1] == 1:
+        # a single column is already hashable: packing it would
+        # offset by 2**63 which does not fit in an int64
+        return as_int[:, 0]
 
     # if array is 2D and smallish, we can try bitbanging
     # this is significantly faster than the custom dtype
